@@ -74,6 +74,18 @@ def check_run_order(ctx, R="C12.order"):
             idx.append(None)
         else:
             idx.append(hits[0])
+    # the steps that happen in every time step are plain statements of the loop body, not guarded by anything
+    UNCONDITIONAL = {"scenario step", "record current state", "run monitors", "log actions", "execute actions", "simulator step", "clock increment", "refresh dynamic properties"}
+    for (name, _), i in zip(landmarks, idx):
+        if i is not None and name in UNCONDITIONAL and isinstance(body[i], (ast.If, ast.For, ast.While, ast.Try, ast.With)):
+            ok = False
+            ctx.finding(
+                R,
+                body[i],
+                f"conditional step {name}",
+                f"Simulation._run: the step `{name}` sits inside `{norm_text(body[i], 50)}`: it is part of every time step (the simulator interface relies on being called, e.g. to apply "
+                f"controls that decay or to advance its own bookkeeping), so it must not depend on a condition",
+            )
     seq = [(n, i) for (n, _), i in zip(landmarks, idx) if i is not None]
     for (n1, i1), (n2, i2) in zip(seq, seq[1:]):
         if not i1 <= i2:
@@ -213,6 +225,27 @@ def check_scenario_step(ctx, R="C12.scenario"):
         ctx.ok(R, inv, "each running sub-scenario is stepped exactly once per step of its parent's compose block")
     else:
         ctx.finding(R, inv, "sub-scenario stepping", f"DynamicScenario._invokeInner steps sub-scenarios {len(steps)} times per iteration")
+
+
+def check_monitor_round(ctx, R="C12.order"):
+    """part of C12.order: within one round of monitors, a scenario that its own monitor ends is stopped only after the monitors of
+    its sub-scenarios have run (stopping it stops them)"""
+    model = ctx.model
+    fn = model.func(DS, "DynamicScenario._runMonitors")
+    subs = [l for l in walk_local(fn) if isinstance(l, ast.For) and unparse(l.iter) == "self._subScenarios" and any(isinstance(c, ast.Call) and isinstance(c.func, ast.Attribute) and c.func.attr == "_runMonitors" for c in ast.walk(l))]
+    stops = [c for c in walk_local(fn) if isinstance(c, ast.Call) and unparse(c.func) == "self._stop"]
+    if not subs or not stops:
+        raise AnalysisError("shape not recognised: sub-scenario monitor loop / stop call of DynamicScenario._runMonitors")
+    if all((subs[0].lineno, subs[0].col_offset) < (c.lineno, c.col_offset) for c in stops):
+        ctx.ok(R, stops[0], "_runMonitors stops the scenario only after the monitors of its sub-scenarios have run in this step")
+    else:
+        ctx.finding(
+            R,
+            stops[0],
+            "scenario stopped before its sub-scenarios' monitors run",
+            "DynamicScenario._runMonitors calls self._stop(...) before the loop that runs the monitors of the sub-scenarios: stopping the scenario stops them, so in the step in which a "
+            "monitor ends its scenario the sub-scenarios' monitors (and the requirements they enforce) no longer run",
+        )
 
 
 def check_once_per_step(ctx, R="C12.logs"):
@@ -382,5 +415,6 @@ def check_requirement_kinds(ctx, R="C12.kinds"):
 def check(ctx):
     ctx.run(check_requirement_kinds)
     ctx.run(check_run_order)
+    ctx.run(check_monitor_round)
     ctx.run(check_scenario_step)
     ctx.run(check_once_per_step)
